@@ -3,6 +3,30 @@ import os, shutil, subprocess, time
 import vlib
 
 
+def run_dir(pid):
+    """A scratch directory of this very run: /verif/.work/<ID>/run-<process id>.
+
+    vlib.workdir(ID) wipes /verif/.work/<ID> at the start of every run; two runs of the same check at the same time (a
+    seed sweep next to an integration run) would pull daemons' sockets and data directories from under each other.  So
+    the directory is not wiped as a whole: only run directories whose process is gone are removed."""
+    base = vlib.workdir(pid, clean=False)
+    for name in os.listdir(base):
+        p = os.path.join(base, name)
+        owner = name[4:] if name.startswith("run-") else ""
+        alive = owner.isdigit() and os.path.exists("/proc/" + owner)
+        if not alive:
+            if os.path.isdir(p):
+                shutil.rmtree(p, ignore_errors=True)
+            else:
+                try:
+                    os.remove(p)
+                except OSError:
+                    pass
+    d = os.path.join(base, "run-%d" % os.getpid())
+    os.makedirs(d, exist_ok=True)
+    return d
+
+
 def receptor_copy(wd):
     """A private copy of the receptor binary built from /repo's working tree.
 
